@@ -182,7 +182,7 @@ func (r *runner) block(ev event) error {
 
 func (m *model) describe() string {
 	s := ""
-	for _, id := range []string{"X", "Y", "Z", "ZB", "Z36", "EX", "EZ", "EZT"} {
+	for _, id := range []string{"X", "Y", "Z", "ZB", "Z36", "ZS", "EX", "EZ", "EZT"} {
 		if t := m.tr[id]; t != nil {
 			s += fmt.Sprintf("%s{%s %s by %s sent-yes=%v sent-no=%v recorded=%v minted=%d refunded=%d} ", id, t.Kind, t.Status, m.role(t.Submitter), t.EverYes, t.EverNo, t.Seen, t.Minted, t.Refunded)
 		}
